@@ -170,6 +170,9 @@ def tail(ctx, F):
                 a1 = n(c[2][1])
                 if find_all(a1, lambda x: x == TAIL):
                     out.append((nm, a1))
+        for (bb, pl, v) in p.stores:
+            if p.blocks.index(bb) >= after_bb_index and n(pl) == TAIL:
+                out.append(("array-store", TAIL))
         return out
 
     for p in rets:
@@ -286,6 +289,68 @@ def _ptr(e):
             return None
 
 
+def _register_stores(S, b, hdrs, paths, TAIL, T):
+    """{block: reason or None} for whole-array stores `tail = [r0, .., r(T-1)]` after the window loop whose operands are the
+    loop's window registers: walking from the loop header, the stored values are locals r_j that every loop cycle shifts by one
+    (r_j' = r_(j+1), r_(T-1)' = the item just consumed) and that hold tail[j] when the loop is entered; such a store leaves the last T bytes of
+    old_tail ++ D[0..k] after k iterations (None = verified; otherwise why not)."""
+    out = {}
+    for h in hdrs:
+        try:
+            hp = S.paths(entry=h)
+        except sym.PathLimit:
+            continue
+        cyc = [q for q in hp if q.end == "loop" and q.blocks[-1] == h]
+        exits = [q for q in hp if q.end == "return"]
+        entries = [q for q in S.paths(stop_at={h}) if q.end == "stop"]
+        for q in exits:
+            for (bb, pl, v) in q.stores:
+                if n(pl) != TAIL:
+                    continue
+                why = None
+                regs = [x[1] if x[0] == "local" else None for x in v[2]] if v[0] == "agg" and len(v[2]) == T else None
+                if not regs or None in regs or len(set(regs)) != T:
+                    why = "stored value %s is not an array of %d distinct loop-carried locals" % (sym.fmt(n(v))[:100], T)
+                if why is None:
+                    if not cyc:
+                        why = "no loop cycle found"
+                    for c_ in cyc:
+                        nxt = [x for x in c_.calls if x[1].endswith("::next")]
+                        if len(nxt) != 1:
+                            why = "loop cycle with %d next() calls" % len(nxt)
+                            break
+                        item = ("field", ("variant", n(("call", nxt[0][0], nxt[0][1], nxt[0][2])), "Some"), 0)
+                        items = (item, ("load", ("deref", item)))
+                        for j, r_ in enumerate(regs):
+                            got = n(c_.env["locals"].get(r_, ("local", r_)))
+                            if j < T - 1 and got != ("local", regs[j + 1]):
+                                why = "register %d is not shifted from register %d by a loop cycle (becomes %s)" % (j, j + 1, sym.fmt(got)[:60])
+                            if j == T - 1 and got not in items:
+                                why = "the last register does not take the consumed item (becomes %s)" % sym.fmt(got)[:60]
+                if why is None:
+                    if not entries:
+                        why = "no path reaches the loop header"
+                    for e_ in entries:
+                        # the registers are loaded from the tail after the last write into it
+                        for j, r_ in enumerate(regs):
+                            got = e_.env["locals"].get(r_)
+                            g = n(got) if got is not None else None
+                            okv = g in (("load", ("index", TAIL, C(j))), ("index", ("load", TAIL), C(j)), ("cindex", ("load", TAIL), j, False))
+                            if not okv:
+                                why = "register %d enters the loop as %s, not tail[%d]" % (j, sym.fmt(g)[:60] if g else None, j)
+                            elif got[0] == "load" and len(got) > 2 and isinstance(got[2], int):
+                                ver = got[2]
+                                later = [m_ for m_ in e_.env["mem"][ver:] if find_all(n(m_[0]), lambda y: y == TAIL)]
+                                if later:
+                                    why = "the tail is written after register %d was loaded from it" % j
+                prev = out.get(bb, "unset")
+                out[bb] = why if prev in ("unset", None) else prev
+    return out
+
+
+_REGS = [{}]
+
+
 def _tail_ops(p, start_index, D, TAIL, T, env, end_index=1 << 30, extra=None):
     """ordered tail-writing operations on path p from block position start_index on:
     ('D', lo, hi, delta) : tail[j] = D[j + delta] for j in [lo, hi);  ('old', lo, hi, delta): tail[j] = tail_before[j + delta];
@@ -375,6 +440,11 @@ def _tail_ops(p, start_index, D, TAIL, T, env, end_index=1 << 30, extra=None):
         npl = n(pl)
         if npl != TAIL and find_all(npl, lambda x: x == TAIL):
             ops.append(("?", "element store %s := %s" % (sym.fmt(npl), sym.fmt(_subst(n(v), D, TAIL, T))[:120])))
+        elif npl == TAIL and bb in _REGS[0]:
+            if _REGS[0][bb] is None:
+                ops.append(("regs",))
+            else:
+                ops.append(("?", "whole-array store: %s" % _REGS[0][bb]))
         elif npl == TAIL:
             ops.append(("?", "whole-array store %s" % sym.fmt(_subst(n(v), D, TAIL, T))[:160]))
     return ops
@@ -434,6 +504,14 @@ def _simulate(ops, T, k):
     for op in ops:
         if op[0] == "?":
             return None, "not understood: " + op[1]
+        if op[0] == "regs":
+            # the window registers after k loop cycles: the last T elements of old_tail ++ D[0..k]
+            if k is not None:
+                seq = [("old", j) for j in range(T)] + [("D", 0, i) for i in range(k)]
+                cells = seq[-T:]
+            else:
+                cells = [("D", 1, j - T) for j in range(T)]
+            continue
         kind, lo, hi, delta, ln = op
         if k is not None:
             lo_v, hi_v, ln_v = _val(lo, k), _val(hi, k), _val(ln, k)
@@ -515,6 +593,7 @@ def tail_windows(ctx, F):
     bad = []
     covered = {}
     checked = 0
+    _REGS[0] = _register_stores(S, b, hdrs, paths, TAIL, T)
     for p in rets:
         hit = [i for i, bb in enumerate(p.blocks) if bb in hdrs]
         if not hit:
